@@ -1,5 +1,6 @@
 import HavocVerif.Basic.Proto
 import HavocVerif.Model.Socks
+import HavocVerif.Model.PortFwd
 /-
   Driver for C15.
     hello <chunk,…> => recv=<hex> job=<connect:atyp:addr:port|-> clients=<n>
@@ -21,9 +22,86 @@ structure St where
   req : Option SocksReq := none
   servers : List String := []
   base : Nat := 0          -- sockets in the table that do not belong to the current session
+  pf : PortFwd.St := {}    -- the reverse port-forward half
+  answered : List Nat := []  -- forwards whose target has answered (and half-closed) on the current connection
+
+/-- the implementation's table `sid:open|closed,…` as a sorted list -/
+def parseTable (s : String) : Option (List (Nat × Bool)) :=
+  if s = "-" then some [] else
+  ((s.splitOn ",").mapM fun (t : String) =>
+    match t.splitOn ":" with
+    | [i, st] => (String.toNat? i).map fun n => (n, st == "open")
+    | _ => none).map fun (l : List (Nat × Bool)) => l.mergeSort fun a b => a.1 ≤ b.1
+
+def modelTable (p : PortFwd.St) : List (Nat × Bool) :=
+  (p.fwds.map fun f => (f.sid, f.conn)).mergeSort fun a b => a.1 ≤ b.1
+
+def showTable (t : List (Nat × Bool)) : String :=
+  if t.isEmpty then "-" else ",".intercalate (t.map fun (i, o) => s!"{i}:{if o then "open" else "closed"}")
+
+def pfCheckTable (st : St) (l : Line) (what : String) : Verdict :=
+  match (kv "table" l.impl).bind parseTable, kv "res" l.impl with
+  | _, some r =>
+    if r ≠ "ok" then .specFail "C15.portfwd" s!"{what}: handling ended with {r}"
+    else match (kv "table" l.impl).bind parseTable with
+      | some t => if t ≠ modelTable st.pf then .specFail "C15.portfwd" s!"{what}: the forward table is {showTable t}, expected {showTable (modelTable st.pf)}" else .ok
+      | none => .bad "pf table"
+  | _, none => .bad "pf output"
 
 def step (st : St) (l : Line) : St × Verdict :=
   match l.op, l.args with
+  | "pfreset", [] => ({ st with pf := {}, answered := [] }, .ok)
+  | "pfopen", [sid, up] =>
+    match sid.toNat? with
+    | some i =>
+      let st' := { st with pf := (PortFwd.step st.pf (.open_ i (up == "1"))).1 }
+      (st', pfCheckTable st' l s!"client reported on forward {i}")
+    | none => (st, .bad "pfopen")
+  | "pfup", [sid] =>
+    match sid.toNat? with
+    | some i => ({ st with pf := (PortFwd.step st.pf (.up i)).1 }, .ok)
+    | none => (st, .bad "pfup")
+  | "pfread", [sid, data] =>
+    match sid.toNat?, ofHex data with
+    | some i, some d =>
+      let (p', out) := PortFwd.step st.pf (.read i d)
+      let st' := { st with pf := p' }
+      let wantGot := match (p'.find i).orElse (fun _ => p'.targets.find? (·.sid == i)) with
+        | some f => if f.got.isEmpty then "-" else toHexP f.got
+        | none => "-"
+      let errs := ((kv "errs" l.impl).bind String.toNat?).getD 0
+      match pfCheckTable st' l s!"data for forward {i}" with
+      | .ok =>
+        if kv "got" l.impl ≠ some wantGot then
+          (st', .specFail "C15.portfwd" s!"forward {i}: its target has received {(kv "got" l.impl).getD "?"}, the agent relayed {wantGot}")
+        else if out == .refused ∧ errs = 0 then
+          (st', .specFail "C15.portfwd" s!"forward {i}: the data could not be delivered but no error was reported")
+        else if out == .written ∧ errs ≠ 0 then
+          (st', .specFail "C15.portfwd" s!"forward {i}: the data was delivered, yet {errs} error(s) were reported")
+        else (st', .ok)
+      | v => (st', v)
+    | _, _ => (st, .bad "pfread")
+  | "pfreply", [sid, data] =>
+    match sid.toNat?, kv "jobs" l.impl with
+    | some i, some jobs =>
+      let connected := match st.pf.find i with | some f => f.conn | none => false
+      if connected && !st.answered.contains i then
+        let want := s!"{i}:{data}"
+        ({ st with answered := i :: st.answered },
+          if jobs ≠ want then .specFail "C15.portfwd" s!"forward {i}: its target answered {data} and closed; socket-write tasks for the agent: {jobs}, expected {want}" else .ok)
+      else (st, if jobs ≠ "-" then .specFail "C15.portfwd" s!"forward {i} has no open connection to answer on, yet tasks {jobs} were queued" else .ok)
+    | _, _ => (st, .bad "pfreply")
+  | "pfremove", [sid] =>
+    match sid.toNat? with
+    | some i =>
+      let st' := { st with pf := (PortFwd.step st.pf (.remove i)).1, answered := st.answered.filter (· ≠ i) }
+      match pfCheckTable st' l s!"removal of forward {i}" with
+      | .ok =>
+        match (kv "live" l.impl).map (·.splitOn "->") with
+        | some [_, left] => if left ≠ "0" then (st', .specFail "C15.portfwd" s!"forward {i} was removed but {left} connection(s) to its target stay open") else (st', .ok)
+        | _ => (st', .bad "pfremove live")
+      | v => (st', v)
+    | none => (st, .bad "pfremove")
   | "hello", [cs] =>
     match chunks cs, kv "recv" l.impl, kv "job" l.impl with
     | some stream, some recv, some job =>
